@@ -51,10 +51,16 @@ def tlc_obligations(rep, configs, maxlen_bump=0):
                 except OSError:
                     pass
     ths = [threading.Thread(target=one, args=(c,)) for c in configs]
-    for t in ths:
-        t.start()
-    for t in ths:
-        t.join()
+    if maxlen_bump:
+        # the deeper trees of the thorough tier one after the other (memory)
+        for t in ths:
+            t.start()
+            t.join()
+    else:
+        for t in ths:
+            t.start()
+        for t in ths:
+            t.join()
     if errs:
         raise errs[0]
     obl = []
@@ -70,6 +76,7 @@ def tlc_obligations(rep, configs, maxlen_bump=0):
         for x in o:
             x['cfg'] = cfg
         obl.extend(o)
+        r['out'] = ''          # the parsed text is no longer needed
     return obl
 
 
@@ -189,12 +196,10 @@ def _shard(args):
 
 def select(obl, rnd, thorough):
     """Quick tier: every accepted sequence, a seeded sample of the rejected."""
-    if thorough:
-        return obl
     acc = [o for o in obl if o['g'] == 'acc']
     rej = [o for o in obl if o['g'] == 'rej']
     rnd.shuffle(rej)
-    return acc + rej[:60000]
+    return acc + rej[:(600000 if thorough else 60000)]
 
 
 def replay(rep, obl, pid, kinds=None):
